@@ -401,3 +401,53 @@ Lemma forward_progress w i sn x rest :
   c_owner w i = Some sn -> c_subq w i = x :: rest ->
   c_subq (cstep w (CForward i)) i = rest /\ c_wire (cstep w (CForward i)) sn = c_wire w sn ++ [WItem i x].
 Proof. intros Ho Hq. cbn [cstep]. rewrite Ho, Hq. cbn [c_subq c_wire]. now rewrite !upd_same. Qed.
+
+(* ---- bounded channels: the one moment at which nobody can drain a channel ----
+   The channels of the code are bounded (capacity: the configured channel buffer size, at least 1) and the core task
+   awaits room.  A subscription's channel has a reader only once the subscribe request has been ANSWERED (the
+   forwarding task is spawned by the serve loop afterwards), so what the core puts into the new channel while it
+   serves the subscribe request itself must fit: it is at most one item (the snapshot), whatever the size of the
+   store. *)
+Theorem subscribe_fits s o i :
+  o_res (snd (step s o)) = RSub i -> (length (for_inst i (items_of (snd (step s o)))) <= 1)%nat.
+Proof.
+  destruct o; cbn [step fst snd out_res o_res]; try discriminate;
+    try (intros Hi; exfalso; revert Hi;
+         first [ destruct (do_pget s p); discriminate
+               | unfold do_get; crush_op; discriminate
+               | unfold do_cget; crush_op; discriminate
+               | unfold do_ls; crush_op; discriminate
+               | unfold do_pls; crush_op; discriminate
+               | unfold do_insert; crush_op; cbn; discriminate
+               | unfold do_delete; crush_op; cbn; discriminate
+               | unfold do_pdelete; crush_op; cbn; discriminate
+               | unfold do_publish; crush_op; cbn; discriminate
+               | unfold do_spub_init; crush_op; cbn; discriminate
+               | unfold do_spub, do_publish; crush_op; cbn; discriminate
+               | unfold do_import; crush_op; cbn; discriminate
+               | unfold do_unsubscribe; crush_op; cbn; discriminate
+               | unfold do_unsubscribe_ls; crush_op; cbn; discriminate
+               | unfold do_lock; crush_op; cbn; discriminate
+               | unfold do_acquire; crush_op; cbn; discriminate
+               | unfold do_release; crush_op; cbn; discriminate
+               | apply connected_res
+               | apply disconnected_res ]).
+  - unfold do_subscribe. crush_op; cbn [snd o_res]; intros Hi; try discriminate; injection Hi as <-;
+      unfold for_inst, items_of; cbn [o_events o_ls].
+    match goal with H : _ = Ok ?a |- _ =>
+      repeat match type of H with
+             | (if ?b then _ else _) = _ => destruct b
+             | match ?x with _ => _ end = _ => destruct x
+             end; try discriminate H; injection H as <- end;
+      cbn [map app filter fst snd]; rewrite ?N.eqb_refl; cbn; lia.
+  - unfold do_psubscribe. crush_op; cbn [snd o_res]; intros Hi; try discriminate; injection Hi as <-;
+      unfold for_inst, items_of; cbn [o_events o_ls].
+    match goal with H : _ = Ok ?a |- _ =>
+      repeat match type of H with
+             | (if ?b then _ else _) = _ => destruct b
+             | match ?x with _ => _ end = _ => destruct x
+             end; try discriminate H; injection H as <- end;
+      cbn [map app filter fst snd]; rewrite ?N.eqb_refl; cbn; lia.
+  - unfold do_subscribe_ls. cbn [snd o_res]. intros Hi. injection Hi as <-.
+    unfold for_inst, items_of. cbn [o_events o_ls map app filter fst snd]. rewrite N.eqb_refl. cbn. lia.
+Qed.
